@@ -73,8 +73,14 @@ impl Slot {
 
 impl Drop for Slot {
     fn drop(&mut self) {
-        // reference-model decrement is logged *before* the real drop
+        // reference-model decrement is logged *before* the real drop, `RefGone` after it
+        let hk = self.h.hk();
         self.release_logged();
+        if hk.strong() {
+            let h = self.take();
+            drop(h);
+            log::log(K::RefGone { tag: self.tag, hk, c: self.c });
+        }
     }
 }
 
@@ -290,6 +296,7 @@ async fn exec_op(env: &Arc<Env>, c: u16, i: u16, op: Op, slots: &mut Vec<Slot>) 
                     let H::Addr(a) = slots[slot as usize].take() else { unreachable!() };
                     let r = a.halt().await;
                     log::log(K::Ref { tag, hk: Hk::Addr, delta: -1, c });
+                    log::log(K::RefGone { tag, hk: Hk::Addr, c });
                     res_of(r)
                 }
                 Hk::Weak => {
@@ -307,6 +314,7 @@ async fn exec_op(env: &Arc<Env>, c: u16, i: u16, op: Op, slots: &mut Vec<Slot>) 
                 let H::Owning(a) = slots[slot as usize].take() else { unreachable!() };
                 let r = a.consume().await;
                 log::log(K::Ref { tag, hk: Hk::Owning, delta: -1, c });
+                log::log(K::RefGone { tag, hk: Hk::Owning, c });
                 match r {
                     Ok(v) => Res::Joined(Some(v)),
                     Err(e) => Res::Err(err_name(&e)),
@@ -323,6 +331,7 @@ async fn exec_op(env: &Arc<Env>, c: u16, i: u16, op: Op, slots: &mut Vec<Slot>) 
                 let H::Owning(a) = slots[slot as usize].take() else { unreachable!() };
                 let r = a.consume_sync();
                 log::log(K::Ref { tag, hk: Hk::Owning, delta: -1, c });
+                log::log(K::RefGone { tag, hk: Hk::Owning, c });
                 match r {
                     Ok(f) => {
                         let s = push(slots, Slot::mk(H::JoinFut(f), tag, c));
@@ -434,6 +443,7 @@ async fn exec_op(env: &Arc<Env>, c: u16, i: u16, op: Op, slots: &mut Vec<Slot>) 
                 let a = o.detach();
                 let s = push(slots, Slot::mk(H::Addr(a), tag, c));
                 log::log(K::Ref { tag, hk: Hk::Owning, delta: -1, c });
+                log::log(K::RefGone { tag, hk: Hk::Owning, c });
                 Res::Handle { slot: s, some: true }
             } else {
                 push(slots, Slot::empty());
@@ -470,6 +480,7 @@ async fn exec_op(env: &Arc<Env>, c: u16, i: u16, op: Op, slots: &mut Vec<Slot>) 
                     // the awaiting future owns a strong handle until it resolves
                     let r = a.into_await().await;
                     log::log(K::Ref { tag, hk: Hk::Addr, delta: -1, c });
+                    log::log(K::RefGone { tag, hk: Hk::Addr, c });
                     res_of(r)
                 }
             } else {
@@ -536,8 +547,8 @@ async fn exec_op(env: &Arc<Env>, c: u16, i: u16, op: Op, slots: &mut Vec<Slot>) 
             end(c, i, Res::Handle { slot: first, some: first != u16::MAX });
         }
         Op::Fork { ops, moved } => {
-            begin(c, i, OpK::Yield, Hk::None, Path::NA, u32::MAX, 0, 0, 1);
             let nc = env.next_client.fetch_add(1, Ordering::SeqCst);
+            begin(c, i, OpK::Fork, Hk::None, Path::NA, u32::MAX, 0, 0, nc as u64);
             let mut table: Vec<Slot> = (0..slots.len()).map(|_| Slot::empty()).collect();
             for m in moved {
                 if let Some(s) = slots.get_mut(m as usize) {
@@ -606,6 +617,7 @@ async fn exec_op(env: &Arc<Env>, c: u16, i: u16, op: Op, slots: &mut Vec<Slot>) 
                         Err(e) => {
                             // the address was consumed by the failed register
                             log::log(K::Ref { tag, hk: Hk::Addr, delta: -1, c });
+                            log::log(K::RefGone { tag, hk: Hk::Addr, c });
                             push(slots, Slot::empty());
                             Res::Prev { ok: false, err: Some(err_name(&e)), prev: None }
                         }
